@@ -6,12 +6,15 @@
    carries an error factory, so it never reaches the re-association passes ([ref:error_check]), and
    check_definitions never meets a hole with a non-zero shift (C14_parse_never_panics); and the
    linear fuel always suffices, i.e. the parser model terminates on every token list
-   (C14_parse_terminates, from the absence of left recursion in the generated skeleton). Panics, aborts and the
+   (C14_parse_terminates, from the absence of left recursion in the generated skeleton). First step
+   into the checker: what parse() accepts is well scoped, and on a well-scoped term the Model B
+   checker never reaches its typing-context lookup panic site (C14_checker_lookup_in_bounds). Panics, aborts and the
    process-level contract of the real binary are explored by the library and CLI streams. *)
 From Coq Require Import List ZArith NArith Bool Arith.
 Import ListNotations.
 Require Import Gram.Model.Term Gram.Model.Token Gram.Gen.TokenTables Gram.Model.Tokenizer Gram.Proofs.TokenizerProofs.
 Require Import Gram.Model.Grammar Gram.Model.Parser Gram.Model.ParserPost Gram.Proofs.ContractProofs Gram.Proofs.PanicProofs Gram.Proofs.PackratProofs.
+Require Import Gram.Model.ModelB Gram.Spec.ScopeSpec Gram.Proofs.ScopedProofs.
 
 Theorem C14_parse_terminates : forall toks memo ctx, fst (fst (parse_top toks memo ctx)) <> POutOfFuel.
 Proof. exact parse_top_within_fuel. Qed.
@@ -37,3 +40,12 @@ Theorem C14_parse_errors_nonempty : forall toks memo ctx n, fst (fst (parse_top 
 Proof. exact parse_errors_nonempty. Qed.
 Check C14_parse_errors_nonempty : forall toks memo ctx n, fst (fst (parse_top toks memo ctx)) = PErr n -> n <> 0.
 Print Assumptions C14_parse_errors_nonempty.
+
+Theorem C14_checker_lookup_in_bounds : forall toks tree t ns f s r,
+  syntax_tree toks = Some tree -> fst (fst (parse_top toks true [])) = POk t ns ->
+  tcB f s [] [] t = Some r -> ~ In EScope (b_errs r).
+Proof. exact checker_lookup_in_bounds. Qed.
+Check C14_checker_lookup_in_bounds : forall toks tree t ns f s r,
+  syntax_tree toks = Some tree -> fst (fst (parse_top toks true [])) = POk t ns ->
+  tcB f s [] [] t = Some r -> ~ In EScope (b_errs r).
+Print Assumptions C14_checker_lookup_in_bounds.
